@@ -5,14 +5,15 @@ Import ListNotations.
 From TV Require Import Lib.Obs C08.Base C08.Model.
 
 (* input: (max_header_size, max_body_size, chunk_size, request method is HEAD,
-           decompress_response, streaming_callback given, zlib answers in call order,
-           TCP segments of the response stream; EOF follows the last segment) *)
-Definition input := (nat * N * nat * bool * bool * bool * gz_table * list (list N))%type.
+           decompress_response, streaming_callback given, expect_100_continue (POST with a body
+           held back), zlib answers in call order, TCP segments of the response stream; EOF
+           follows the last segment) *)
+Definition input := (nat * N * nat * bool * bool * bool * bool * gz_table * list (list N))%type.
 Definition cfg_of (i : input) : cfg :=
-  let '(mh, mb, cs, hd, dec, str, _, _) := i in
+  let '(mh, mb, cs, hd, dec, str, ex, _, _) := i in
   {| max_header := mh; max_body := mb; chunk_pred := Nat.pred cs; is_head := hd;
-     decompress := dec; streaming := str |}.
-Definition tbl_of (i : input) : gz_table := let '(_, _, _, _, _, _, t, _) := i in t.
+     decompress := dec; streaming := str; expect100 := ex |}.
+Definition tbl_of (i : input) : gz_table := let '(_, _, _, _, _, _, _, t, _) := i in t.
 Definition segs_of (i : input) : list bytes := snd i.
 
 Definition obs_of_ekind (k : ekind) : obs :=
@@ -35,10 +36,10 @@ Definition obs_of_outcome (o : outcome) : obs :=
 
 (* [what final_callback got; bytes given to streaming_callback by then; bytes given to it
     afterwards (the model never produces any); final_callback ran before the transport's EOF
-    was consumed] *)
+    was consumed; the held-back request body was written (once) in answer to a 100] *)
 Definition obs_of_result (r : result) : obs :=
   match r with
-  | Res o eof st => OList [obs_of_outcome o; OBytes st; OBytes []; OBool (negb eof)]
+  | Res o eof st sent => OList [obs_of_outcome o; OBytes st; OBytes []; OBool (negb eof); OBool sent]
   | OutOfFuel => OTag "OutOfFuel"
   end.
 
@@ -51,7 +52,9 @@ Definition obs_is_1xx (o : obs) : bool :=
 
 Definition check_case (i : input) (o : obs) : bool :=
   match o with
-  | OList [out; st; late; early] =>
+  | OList [out; st; late; early; OBool sent] =>
+      (* a held-back request body is only ever written when the request asked for that *)
+      implb sent (expect100 (cfg_of i)) &&
       (* the fetch completes: a response or an error, never silence *)
       negb (obs_eqb out (OTag "Hang")) &&
       (* nothing is delivered after the result was handed over *)
